@@ -200,12 +200,13 @@ open GunYu GunYu.Sender
     `crash_executes_body_prefix`: the executed requests are the bodies of the
     first `m` batches, followed by a prefix of the next batch only if that batch
     is not a MULTI/EXEC block. -/
-theorem crash_whole_batches (out : List Batch) (hwf : AllWF out) (t : TState)
+theorem crash_whole_batches_prefix (out : List Batch) (hwf : AllWF out) (t : TState)
     (hq : t.queued = none) (k : Nat) :
     ∃ m E', SameData (applyLog t (out.flatten.take k)) ((bodies (out.take m) ++ E').foldl execReq t) ∧
-      (E' = [] ∨ ∃ b, b ∈ out ∧ stripB b = b ∧ E' <+: b) := by
+      (E' = [] ∨ ∃ b, b ∈ out ∧ stripB b = b ∧ E' <+: b) ∧
+      bodies (out.take m) ++ E' <+: bodies out := by
   induction out generalizing t k with
-  | nil => exact ⟨0, [], by simp [applyLog, SameData, bodies], Or.inl rfl⟩
+  | nil => exact ⟨0, [], by simp [applyLog, SameData, bodies], Or.inl rfl, by simp [bodies]⟩
   | cons b rest ih =>
     obtain ⟨body, hp, hstrip, hshape⟩ := stripB_wf b (hwf b (List.mem_cons_self ..))
     have hrest : AllWF rest := fun x hx => hwf x (List.mem_cons_of_mem _ hx)
@@ -218,8 +219,8 @@ theorem crash_whole_batches (out : List Batch) (hwf : AllWF out) (t : TState)
         · rw [h]; exact applyLog_plain body hp t hq
         · rw [h]; exact applyLog_block body hp t hq
       have hq1 : (body.foldl execReq t).queued = none := by rw [foldl_execReq_queued, hq]
-      obtain ⟨m, E', hs, hE'⟩ := ih hrest (body.foldl execReq t) hq1 (k - b.length)
-      refine ⟨m + 1, E', ?_, ?_⟩
+      obtain ⟨m, E', hs, hE', hpre⟩ := ih hrest (body.foldl execReq t) hq1 (k - b.length)
+      refine ⟨m + 1, E', ?_, ?_, ?_⟩
       · rw [htk, applyLog_append, hb]
         have : bodies ((b :: rest).take (m + 1)) = body ++ bodies (rest.take m) := by
           simp [bodies, hstrip]
@@ -228,6 +229,11 @@ theorem crash_whole_batches (out : List Batch) (hwf : AllWF out) (t : TState)
       · rcases hE' with h | ⟨b', hb', h1, h2⟩
         · exact Or.inl h
         · exact Or.inr ⟨b', List.mem_cons_of_mem _ hb', h1, h2⟩
+      · have h1 : bodies ((b :: rest).take (m + 1)) = body ++ bodies (rest.take m) := by
+          simp [bodies, hstrip]
+        have h2 : bodies (b :: rest) = body ++ bodies rest := by simp [bodies, hstrip]
+        rw [h1, h2, List.append_assoc]
+        exact (List.prefix_append_right_inj body).mpr hpre
     · have hlt : k < b.length := Nat.lt_of_not_le hk
       have htk : (b :: rest).flatten.take k = b.take k := by
         simp only [List.flatten_cons, List.take_append]
@@ -235,11 +241,15 @@ theorem crash_whole_batches (out : List Batch) (hwf : AllWF out) (t : TState)
         simp [this]
       rw [htk]
       rcases hshape with h | h
-      · refine ⟨0, body.take k, ?_, Or.inr ⟨b, List.mem_cons_self .., ?_, ?_⟩⟩
+      · refine ⟨0, body.take k, ?_, Or.inr ⟨b, List.mem_cons_self .., ?_, ?_⟩, ?_⟩
         · rw [h, take_prefix_plain body hp t hq k]; simp [bodies, SameData]
         · rw [hstrip, h]
         · rw [h]; exact List.take_prefix k body
-      · refine ⟨0, [], ?_, Or.inl rfl⟩
+        · have h2 : bodies (b :: rest) = body ++ bodies rest := by simp [bodies, hstrip]
+          rw [h2]
+          simp only [List.take_zero, bodies, List.flatMap_nil, List.nil_append]
+          exact (List.take_prefix k body).trans (List.prefix_append _ _)
+      · refine ⟨0, [], ?_, Or.inl rfl, by simp [bodies]⟩
         cases k with
         | zero => simp [applyLog, SameData, bodies]
         | succ j =>
@@ -260,5 +270,13 @@ theorem crash_whole_batches (out : List Batch) (hwf : AllWF out) (t : TState)
           unfold applyLog at h2
           rw [h2]
           simp [bodies, SameData]
+
+
+theorem crash_whole_batches (out : List Batch) (hwf : AllWF out) (t : TState)
+    (hq : t.queued = none) (k : Nat) :
+    ∃ m E', SameData (applyLog t (out.flatten.take k)) ((bodies (out.take m) ++ E').foldl execReq t) ∧
+      (E' = [] ∨ ∃ b, b ∈ out ∧ stripB b = b ∧ E' <+: b) := by
+  obtain ⟨m, E', h1, h2, _⟩ := crash_whole_batches_prefix out hwf t hq k
+  exact ⟨m, E', h1, h2⟩
 
 end GunYu.Target
